@@ -203,7 +203,7 @@ func readWriterFacts(repo string) writerFacts {
 	}
 	wf.TimePtr = identEqLit(bc, "base", "time.Time")
 	wf.SliceTyped = allOrNone("slice-type-argument",
-		hasStringLit(bc, "gozod.Slice[%s](%s)"), hasSelector(fsc, "reflect", "Slice"), calls(gi, "generateFieldSchemaCode", false) > 0, !hasStringLit(bc, "gozod.Slice(%s)"))
+		hasStringLit(bc, "gozod.Slice[%s](%s)"), hasSelector(fsc, "reflect", "Slice"), calls(gi, "baseConstructor", false) > 0, !hasStringLit(bc, "gozod.Slice(%s)")) // the `time` import is read off the constructor (43524fe; before: off the whole emitted code)
 	wf.MapKeyMatch = allOrNone("map-value-type", funcDecl(w, "mapKeyEnd") != nil, calls(bc, "mapKeyEnd", false) > 0, calls(bc, "LastIndex", false) == 0)
 	wf.RecordTyped = allOrNone("record-arguments",
 		hasStringLit(bc, "gozod.Record[string, %s](gozod.String(), %s)"), funcDecl(w, "typedConstructor") != nil, calls(bc, "typedConstructor", false) > 0,
